@@ -761,4 +761,63 @@ Section Update.
   Definition update_statements_children (children : list Nd) (verb : list bool) (index : list idx)
              (script : list (dop * St)) : option (list Nd) :=
     update_children children index (first_statement_index index verb) script.
+
+  (* the new node-to-statement index that update_statements stores in the new record (self._index of the result):
+     pos = len(new_children) so far, si = progress in the new statement list *)
+  Fixpoint ins_idx (sts : list St) (pos si : nat) : list idx * nat * nat :=
+    match sts with
+    | [] => ([], pos, si)
+    | s :: tl =>
+        let n := length (gen s) in
+        let '(r, pos', si') := ins_idx tl (pos + n) (S si) in
+        ((pos, pos + n, si, S si) :: r, pos', si')
+    end.
+  Fixpoint us_idx (children : list Nd) (groups : list grp) (last pos si : nat) : list idx :=
+    match groups with
+    | [] => []
+    | (op, sts, ni, nj) :: tl =>
+        let pos1 := pos + length (firstn (ni - last) (skipn last children)) in
+        match op with
+        | DIns => let '(r, pos2, si2) := ins_idx sts pos1 si in r ++ us_idx children tl nj pos2 si2
+        | DKeep => (pos1, pos1 + (nj - ni), si, si + length sts) ::
+                   us_idx children tl nj (pos1 + length (firstn (nj - ni) (skipn ni children))) (si + length sts)
+        | DDel => us_idx children tl nj pos1 si
+        end
+    end.
+  Definition update_statements_index (children : list Nd) (verb : list bool) (index : list idx)
+             (script : list (dop * St)) : option (list idx) :=
+    match isd (S (length script)) (first_statement_index index verb) index script with
+    | Some groups => Some (us_idx children groups 0 0 0)
+    | None => None
+    end.
 End Update.
+
+(* ================================================================================================
+   9. update.update_sizes with SizesRecord.set_LTH / set_PC: which options the regenerated $SIZES record carries.
+   Thresholds are regenerated from records/sizes_record.py.  None = ValueError (more than pc_max compartments). *)
+Record sizes_thr := mkSizesThr { lth_bound : nat;      (* set_LTH: `if value < 101` removes the option *)
+                                 pc_default : nat;     (* set_PC: `if value > 30` sets the option *)
+                                 pc_max : nat }.       (* set_PC: `if value > 99` raises *)
+Inductive sizes_opt := OptLTH (v : nat) | OptPC (v : nat).
+Definition sizes_opt_eqb (a b : sizes_opt) : bool :=
+  match a, b with OptLTH x, OptLTH y | OptPC x, OptPC y => Nat.eqb x y | _, _ => false end.
+
+(* starting from a fresh '$SIZES ' record (no $SIZES in problem 0): set_PC when the model has a compartmental
+   system, then set_LTH *)
+Definition sizes_opts (t : sizes_thr) (ntheta ncomp : nat) (has_cs : bool) : option (list sizes_opt) :=
+  if has_cs && (pc_max t <? ncomp) then None
+  else Some ((if has_cs && (pc_default t <? ncomp) then [OptPC ncomp] else []) ++
+             (if ntheta <? lth_bound t then [] else [OptLTH ntheta])).
+
+Section SizesEdit.
+  Variable A : Type.
+  Variable rname : A -> text.
+  Variable rid : A -> positive.
+  Variable order : list text.
+  (* update_sizes on the record list: `if len(str(sizes)) > 7` <-> some option is set *)
+  Definition update_sizes_records (l : list A) (needed : bool) (new : A) : list A :=
+    match get_records A rname l s_SIZES 0 with
+    | [] => if needed then insert_record A rname order l new None 0 else l
+    | r0 :: _ => if needed then replace_records A rid l [r0] [new] else l
+    end.
+End SizesEdit.
